@@ -35,6 +35,7 @@ type Run struct {
 
 	MutexEvery int    // with MutexSeam: only every n-th acquisition of a goroutine yields (0/1 = all)
 	MutexSeam  bool   // sync-mutex acquisitions are scheduling points in this run (binary built with bin/build mutex)
+	bodyDone   bool   // the check's Run function returned
 	bigDir     string // disk-backed scratch directory, if UseDiskScratch was called
 	SectorSize uint32 // journal sector size PagerSim connections report (0: 512)
 
